@@ -1,7 +1,14 @@
-import A2Verif.Model.Hex
-/-! driver family `c06img` (stub until the family is built) -/
+import A2Verif.Drv.C08Img
+/-!
+driver family `c06img`: volumes with a file system on IMD / TD0 whose image metadata is edited before the
+image is saved and reloaded.  The requests are the op sequences of `Drv/C08Img.lean` on the image under the
+file system:
+
+* `c06img td0seq <hex of the TD0 file without advanced compression> <ops>`
+* `c06img imdseq <hex of the IMD file> <ops>`
+-/
 namespace A2Verif.Drv.C06Img
 
-def handle (_toks : List String) : String := "bad-request"
+def handle (toks : List String) : String := (C08Img.handle toks).getD "bad-request"
 
 end A2Verif.Drv.C06Img
